@@ -21,11 +21,11 @@ DIMS = [
     ('pre', ['none', 'blank2', 'comment']),
     ('decos', [0, 1, 2]),
     ('nest', ['func', 'method', 'cls', 'module', 'asyncfunc']),
-    ('opener', ['"""', "'''", 'r"""', 'R"""', 'u"""', '"""Summary', '"""+summary+blank']),
+    ('opener', ['"""', "'''", 'r"""', 'R"""', 'u"""', '"""Summary', '"""+summary+blank', '"""+blank2']),
     ('layout', ['free_first', 'free_prose', 'two_groups', 'google', 'google_after_args', 'google_second',
                 'free_after_ignored', 'free_ignored_between']),
     ('fail', ['none', 'exc1', 'exc_ml', 'helper', 'modfunc', 'want1', 'want2',
-              'exc_tryfinally', 'exc_tryexcept', 'exc_for', 'exc_with']),
+              'exc_tryfinally', 'exc_tryexcept', 'exc_for', 'exc_with', 'want_dotst', 'want_dotst_call']),
     ('pos', ['last', 'first', 'middle']),
     ('before', ['nothing', 'want', 'multiline']),
     # what follows the closing quotes on their line
@@ -74,6 +74,9 @@ def doctest_lines(fail, pos, before):
         'exc_for': [('>>> for i in range(2):', None), ('...     z = i', None), ('...     1/0', 'fail'), ('...     z = 3', None)],
         'exc_with': [('>>> import contextlib', None), ('>>> with contextlib.suppress(KeyError):', None), ('...     z = 0', None),
                      ('...     1/0', 'fail'), ('...     z = 3', None)],
+        # a part that ends with a bare '...' line, followed by a wrong want
+        'want_dotst': [('>>> for i in range(2):', None), ('...     print(i)', None), ('...', None), ('0', 'fail'), ('9', None)],
+        'want_dotst_call': [('>>> print(1,', None), ('...       2)', None), ('...', None), ('7 7', 'fail')],
         'want1': [('>>> print(1)', None), ('2', 'fail')],
         'want2': [('>>> for i in range(2):', None), ('...     print(i)', None), ('0', 'fail'), ('9', None)],
     }[fail]
@@ -164,6 +167,11 @@ def build(cfg):
     elif opener == '"""+summary+blank':
         w.emit(I + '"""')
         w.emit(I + 'Summary.')
+        w.emit('')
+    elif opener == '"""+blank2':
+        # no summary: the quotes, two blank lines, then the first tag / prompt
+        w.emit(I + '"""')
+        w.emit('')
         w.emit('')
     else:
         w.emit(I + prefix + q)
